@@ -255,7 +255,7 @@ func trivialReturn(s string) bool {
 	return true
 }
 
-var fieldTokRe = regexp.MustCompile(`\.([A-Za-z_][A-Za-z0-9_]*)`)
+var fieldTokRe = regexp.MustCompile(`\.([A-Za-z_][A-Za-z0-9_]*)(\(?)`)
 
 // missingFields lists field names used in the reviewed shape that are not a field of any struct of package pogreb.
 func missingFields(p *Program, want []string) []string {
